@@ -6,7 +6,13 @@ use e57ref::fx::{F32, F64};
 use e57ref::scene::*;
 use serde::{Deserialize, Serialize};
 
-pub const F64_POOL: [f64; 24] = [
+pub const F64_POOL: [f64; 30] = [
+    3.4028234663852886e38,
+    -3.4028234663852886e38,
+    1.7976931348623157e308,
+    4294967296.0,
+    -2147483648.0,
+    1e-320,
     0.0,
     -0.0,
     1.0,
@@ -556,6 +562,9 @@ pub struct BlobSpec {
     /// the source reader hands out at most this many bytes per read call (0 = everything at once)
     #[serde(default)]
     pub chunk: u16,
+    /// content that looks like an E57 XML document instead of pseudo random bytes
+    #[serde(default)]
+    pub xmlish: bool,
 }
 
 /// A legal `Read` source that returns short reads before it is exhausted.
@@ -579,6 +588,18 @@ impl std::io::Read for Trickle<'_> {
 }
 impl BlobSpec {
     pub fn bytes(&self) -> Vec<u8> {
+        if self.xmlish {
+            let doc = format!(
+                "<?xml version=\"1.0\" encoding=\"UTF-8\"?>\n<e57Root type=\"Structure\" xmlns=\"http://www.astm.org/COMMIT/E57/2010-e57-v1.0\">\n<formatName type=\"String\"><![CDATA[ASTM E57 3D Imaging Data File]]></formatName>\n<guid type=\"String\"><![CDATA[{{blob-{}}}]]></guid>\n<versionMajor type=\"Integer\">1</versionMajor>\n<versionMinor type=\"Integer\">0</versionMinor>\n<data3D type=\"Vector\" allowHeterogeneousChildren=\"1\">\n</data3D>\n<images2D type=\"Vector\" allowHeterogeneousChildren=\"1\">\n</images2D>\n</e57Root>\n",
+                self.seed
+            );
+            let mut b = Vec::with_capacity(self.len as usize);
+            while b.len() < self.len as usize {
+                b.extend_from_slice(doc.as_bytes());
+            }
+            b.truncate(self.len as usize);
+            return b;
+        }
         let mut b = crate::kit::fill_bytes(self.seed, self.len as usize);
         // distinct, recognisable prefix
         let tag = self.seed.to_le_bytes();
@@ -606,7 +627,8 @@ pub fn blob_len(s: &mut Src) -> u32 {
 }
 
 pub fn blob_spec(s: &mut Src) -> BlobSpec {
-    BlobSpec { len: blob_len(s), seed: s.u64() | 1, chunk: if s.chance(1, 4) { *s.pick(&[1u16, 7, 100, 1000, 5000]) } else { 0 } }
+    let xmlish = s.chance(1, 12);
+    BlobSpec { len: if xmlish { 400 + s.below(1200) as u32 } else { blob_len(s) }, seed: s.u64() | 1, chunk: if s.chance(1, 4) { *s.pick(&[1u16, 7, 100, 1000, 5000]) } else { 0 }, xmlish }
 }
 
 #[derive(Clone, Debug, PartialEq, Serialize, Deserialize)]
